@@ -112,6 +112,7 @@ class LinFn:
         self.extra_facts = {}       # atom -> [Lin >= 0] side facts of the atom's producer (checked_sub success, ...)
         self.assumed = []           # [(Lin >= 0, point)] declared facts (representation invariants, callee post-conditions)
         self._mem_events = None
+        self.alias = {}             # atom -> canonical display name (loop indices)
         self.atom_place = {}        # memory atom -> canonical place list
 
     # ------------------------------------------------------------------ CFG helpers
@@ -279,6 +280,8 @@ class LinFn:
 
     # ------------------------------------------------------------------ naming
     def name(self, atom):
+        if atom in self.alias:
+            return self.alias[atom]
         b = _base(atom)
         if b is None:
             return atom
@@ -374,7 +377,7 @@ class LinFn:
             return self._atom(n, projs)
         if is_param:
             return self._atom(n, projs)
-        if projs in (["@Continue", ".0"], ["@Some", ".0"], ["@Ok", ".0"]):
+        if projs in (["@Continue", ".0"], ["@Some", ".0"], ["@Ok", ".0"], ["@Some", ".0", ".0"]):
             r = self._lin_payload(n, projs, at, depth)
             if r is not None:
                 return r
@@ -470,13 +473,18 @@ class LinFn:
             if r is not None and self.valid_between(r, P, at):
                 return r
             return None
-        if re.search(r"iter::Iterator::next$", nm) and projs[0] == "@Some" and \
-                re.search(r"^\[(std::iter::Rev<)?std::ops::Range<usize>>?\]$", cs.gargs or ""):
-            b = self._range_loop_bounds(cs)
+        if re.search(r"iter::Iterator::next$", nm) and projs[0] == "@Some":
+            g = cs.gargs or ""
+            is_range = re.search(r"^\[(std::iter::Rev<)?std::ops::Range<usize>>?\]$", g) is not None and projs == ["@Some", ".0"]
+            is_enum = re.search(r"^\[std::iter::Enumerate<", g) is not None and projs == ["@Some", ".0", ".0"]
+            if not (is_range or is_enum):
+                return None
+            b = self._range_loop_bounds(cs, enumerate_=is_enum)
             if b is not None:
                 lo, hi, PR = b
                 atom = self._atom(n, projs, ty="usize")
                 a = list(atom.c)[0]
+                self.alias[a] = "i"             # a loop index: rendered independently of how the loop is written
                 if a not in self.extra_facts:
                     self.extra_facts[a] = True
                     here = (cs.bb, TERM)
@@ -491,9 +499,10 @@ class LinFn:
                 return atom
         return None
 
-    def _range_loop_bounds(self, cs):
-        """`Range<usize>::next(&mut it)` where `it` is a local initialised once from `a..b` with constant bounds and
-        only ever touched by `next` -> every yielded value v satisfies a <= v <= b-1."""
+    def _range_loop_bounds(self, cs, enumerate_=False):
+        """`Range<usize>::next(&mut it)` where `it` is a local initialised once from `a..b` and only ever touched by
+        `next` -> every yielded value v satisfies a <= v <= b-1.  With enumerate_: `it` is initialised from
+        `<slice>.iter()/iter_mut().enumerate()` -> every yielded index i satisfies 0 <= i <= len(slice)-1."""
         fn = self.fn
         # resolve the iterator local through reborrows
         op = cs.args[0]
@@ -535,13 +544,22 @@ class LinFn:
                     if cur is None:
                         return None
                     continue
+                if enumerate_ and c2.short == "Iterator::enumerate" and len(c2.args) == 1 and not isinstance(c2.args[0], dict):
+                    inner = self._single_def(c2.args[0][0])
+                    if inner is None or inner[1] != "call" or not re.search(r"slice::<impl \[T\]>::(iter|iter_mut)$", inner[3].callee or ""):
+                        return None
+                    PR = (inner[0], TERM)
+                    ln = self.slice_len(inner[3].args[0], PR)
+                    if ln is None:
+                        return None
+                    return (Lin({}, 0), ln.add(Lin({}, -1)), PR)
                 return None
             if rv[0] == "use" and not isinstance(rv[1], dict) and len(rv[1]) == 1:
                 cur = self._single_def(rv[1][0])
                 if cur is None:
                     return None
                 continue
-            if rv[0] == "agg" and rv[1] == "adt" and rv[2].endswith("ops::Range") and len(rv[4]) == 2:
+            if rv[0] == "agg" and rv[1] == "adt" and rv[2].endswith("ops::Range") and len(rv[4]) == 2 and not enumerate_:
                 PR = (cur[0], cur[1])
                 a, b = self.lin_op(rv[4][0], PR), self.lin_op(rv[4][1], PR)
                 if a is None or b is None:
@@ -1309,4 +1327,53 @@ def inventory(L, include_expansion=False):
             rec("unwrap", key, ok, msg, bb, line)
             continue
         rec("call", "call:%s" % cs.rshort, False, "potentially panicking call %s" % cs.rshort, bb, line)
+    return out
+
+
+# ---------------------------------------------------------------------- normalised boolean paths (A10 helper)
+
+def norm_paths(fn, split_ret=False):
+    """Acyclic paths of `fn` (analyses.decision_table) with the purely syntactic part of guard structure removed:
+      * a branch on a boolean LOCAL that only carries the outcome of an earlier test on this path (`let c = matches!(..)`,
+        `a && b` bound to a name, merged `||` guards) shows up as a constant condition: consistent ones are dropped,
+        contradictory ones make the path infeasible;
+      * boolean conditions are given as (expr, truth); other switches as (expr, label);
+      * with split_ret, a path RETURNING a non-constant boolean expression e is split into (.. , e=true) -> true and
+        (.., e=false) -> false, so `cond_tail` and `if !cond_tail { return false } true` look the same.
+    Yields dict(conds=[(E, truth|label, is_bool)], ret=E|None, blocks=[..])."""
+    from . import analyses as A
+    out = []
+    for p in A.decision_table(fn):
+        if p["diverges"] or not A.feasible(p):
+            continue
+        conds = []
+        dead = False
+        for c, l, t in p["conds"]:
+            is_bool = (t == "bool")
+            truth = ((l != 0) if not isinstance(l, tuple) else (0 in l[1])) if is_bool else l
+            neg = False
+            e = c
+            while e.k == "un" and e.a[0] == "Not":
+                e = e.a[1]
+                neg = not neg
+            if is_bool and e.k == "const" and e.a[0] in ("true", "false"):
+                val = (e.a[0] == "true") != neg
+                if val != truth:
+                    dead = True
+                    break
+                continue
+            conds.append((e, (truth != neg) if is_bool else truth, is_bool))
+        if dead:
+            continue
+        r = p["ret"]
+        if split_ret and r is not None and not (r.k == "const" and r.a[0] in ("true", "false")):
+            neg = False
+            e = r
+            while e.k == "un" and e.a[0] == "Not":
+                e = e.a[1]
+                neg = not neg
+            for v in (True, False):
+                out.append({"conds": conds + [(e, v != neg, True)], "ret": "true" if v else "false", "blocks": p["blocks"]})
+            continue
+        out.append({"conds": conds, "ret": r, "blocks": p["blocks"]})
     return out
